@@ -766,6 +766,13 @@ class Gen:
         h = self.r.choice(hs)
         if h.kind == "list":
             return self.p_col_arith(pred=lambda x: x.name == h.name) or self.p_setitem(pred=lambda x: x.name == h.name)
+        import dataclasses as _dc
+
+        has_boxes = _dc.is_dataclass(h.obj) and any(isinstance(getattr(h.obj, f.name, None), (list, dict)) for f in _dc.fields(h.obj)
+                                                    if not f.name.startswith("_") and f.name not in ("objs", "maps"))
+        if has_boxes and self.r.random() < 0.4:
+            # the result's list- / dict-valued header fields are its own too (o2jam level lists, osu tags, BMS sample table)
+            return self.mk("meta.mutate", h=h.name, field_ix=self.r.randrange(8), how=self.r.choice(["setitem", "append"]))
         if h.kind == "mapset":
             if not h.obj.maps:
                 return None
@@ -1313,9 +1320,12 @@ class GridMixin:
                 self.d.shuffle(full)
             lists[k] = full
         bp = []
+        # StepMania has no time signature: a tempo point's metronome is in-memory bookkeeping and a .sm measure is 4 beats
+        # whatever it says (the other writers' domains ask for 4/4)
+        metro = self.d.choice([3.0, 5.0, 6.0, 7.0]) if (game == "sm" and self.d.random() < 0.15) else 4.0
         for b, v, ms in tl:
             base = gen_row(self.d, slots["bpms"], keys)
-            base.update(offset=float(ms), bpm=float(v), metronome=4.0 if "metronome" in base else 4)
+            base.update(offset=float(ms), bpm=float(v), metronome=metro if "metronome" in base else 4)
             bp.append(base)
         if len(bp) > 1 and self.d.random() < 0.3:
             self.d.shuffle(bp)  # a tempo point appended later: rows are not in time order
